@@ -168,7 +168,7 @@ class Unit:
         bad_e = _as_expr(bad)
         # prefer a counterexample that is robust under float replay: amplified disequalities, moderate magnitudes
         try:
-            nice = [z3.And(c <= 64, c >= -64) for c in ctx.inputs.values() if c.sort() != z3.BoolSort()]
+            nice = [z3.And(c <= 64, c >= -64) for c in ctx.inputs.values() if c.sort() in (z3.IntSort(), z3.RealSort())]
             r3, m3 = ctx._check(amplify(bad_e), *nice)
             if r3 == "sat":
                 ctx.checks.append((label, "sat", 0.0, K.model_values(m3, ctx.inputs)))
@@ -196,7 +196,8 @@ class Unit:
                 state["unconfirmed"].append({"unit": self.name, "label": label, "values": jsonable(values),
                                              "detail": detail, "tries": tries})
                 return
-            block = z3.Or([c != _val(v, c) for (n, c), v in zip(ctx.inputs.items(), [values[n] for n in ctx.inputs])])
+            block = z3.Or([(z3.Not(z3.fpEQ(c, _val(v, c))) if z3.is_fp_sort(c.sort()) else c != _val(v, c))
+                           for (n, c), v in zip(ctx.inputs.items(), [values[n] for n in ctx.inputs])])
             r2, m = ctx._check(bad_e, block, *state.get("nice", []))
             if r2 != "sat":
                 if self.diversify(ctx, label, _as_expr(bad), state) or self.hunt(ctx, label, state):
@@ -289,6 +290,18 @@ class Unit:
                 if failures:
                     state.setdefault("witness_retried", []).append(failures[0])
                 return
+            # the real code and the symbolic run disagree on this input: if the real outcome violates the property's own
+            # oracle it is a genuine failing input (e.g. a defect at a C boundary that the stubs step over), not an encoding error
+            status, detail = self.replay("witness", values)
+            if status.startswith("reproduced"):
+                state["violations"].append({
+                    "unit": self.name, "label": "witness", "values": jsonable(values),
+                    "detail": detail + " (found while validating the encoding: the real code disagrees with the symbolic run: "
+                                     + "; ".join(problems[:2])[:200] + ")",
+                    "signature": self.signature("witness", values, detail), "decisions": [t[0] for t in ctx.trace]})
+                if len(state["violations"]) >= self.max_violations:
+                    raise StopUnit()
+                return
             failures.append({"unit": self.name, "values": jsonable(values), "problems": problems[:5],
                              "decisions": [t[0] for t in ctx.trace]})
             if len(failures) >= 2:
@@ -341,6 +354,8 @@ class StopUnit(BaseException):
 def _val(v, c):
     if isinstance(v, bool):
         return z3.BoolVal(v)
+    if z3.is_fp_sort(c.sort()):
+        return z3.FPVal(float(v), c.sort())
     if c.sort() == z3.IntSort():
         return z3.IntVal(int(v))
     return K.realval(Fraction(v))
@@ -397,6 +412,7 @@ def run_unit(unit):
              "witness_failed": [], "witness_skipped": 0}
     res = {"unit": unit.name, "bounds": jsonable(unit.bounds), "verdict": "ok", "reason": ""}
     Ctx.query_timeout_ms = unit.query_timeout_ms
+    Ctx.solver_factory = staticmethod(getattr(unit, "solver_factory", None) or (lambda: z3.Solver()))
     samples = []
     reached = 0
     nchecks = 0
@@ -467,7 +483,7 @@ def run_unit(unit):
 def prepare_units(mod, tier):
     us = mod.units(tier)
     for u in us:
-        if tier == "quick":
+        if tier == "quick" and not getattr(u, "keep_budget", False):
             u.budget_s = min(u.budget_s, 240)
             u.query_timeout_ms = min(u.query_timeout_ms, 30000)
     return us
